@@ -8,6 +8,7 @@ mod exec;
 mod gen;
 mod gen2;
 mod gen3;
+mod gen4;
 mod mach;
 mod replay;
 mod rng;
